@@ -28,7 +28,7 @@ func smallAlphabet() []string {
 		}
 		out = append(out, "del "+hx.Hex(k))
 	}
-	return append(out, "commit", "reopen", "dbcommit", "snap", "fork")
+	return append(out, "commit", "reopen", "dbcommit", "snap", "fork", "commitref", "updroot 10")
 }
 
 // gen produces one structured, boundary-biased history over a key pool.
@@ -157,16 +157,30 @@ func (g *gen) op() string {
 		return "upd " + hx.Hex(g.key()) + " " + hx.Hex(g.value())
 	case c < 58:
 		return "del " + hx.Hex(g.key())
-	case c < 72:
+	case c < 70:
 		return "get " + hx.Hex(g.key())
-	case c < 77:
+	case c < 74:
 		return "hash"
-	case c < 84:
+	case c < 80:
 		return "commit"
-	case c < 88:
+	case c < 83:
 		return "reopen"
-	case c < 91:
+	case c < 86:
 		return "dbcommit"
+	case c < 91:
+		switch r.Intn(6) {
+		case 0:
+			return "updroot " + hx.Hex(g.key())
+		case 1:
+			return "commitref"
+		case 2:
+			return "dbstate"
+		case 3:
+			return "noderoot"
+		case 4:
+			return "blob " + hx.Hex(r.Bytes(r.Pick(0, 1, 31, 32, 33, 100)))
+		}
+		return "cachelimit " + strconv.Itoa(r.Pick(0, 0, 1, 2, 3, 65535))
 	case c < 92:
 		return "cachelimit " + strconv.Itoa(r.Pick(0, 0, 1, 2, 3, 65535))
 	case c < 94:
